@@ -760,6 +760,10 @@ def check_C19(rep):
             self.calls.append(("add_traces", (n, steps)))
 
         def violation(self, sig, what, replay):
+            if str(sig.get("clause", "")).startswith(("env_", "malformed")):
+                # the stimulus left the Env assumption / the record stream is ill-formed: a fault of this
+                # harness, never a property violation
+                raise tlc.TLCError("stimulus outside the environment assumption (%s): %s" % (sig, what[:300]))
             self.calls.append(("violation", (sig, what, replay)))
 
     with tlc.scratch("u2r-info-") as d:
